@@ -1871,7 +1871,7 @@ class Element(Mapping[str, Attribute]):
             needs to be referenced by UUID instead of inline.
         """
         indent_child = indent + b'\t'
-        file.write(b'"%b"\r\n%b{\r\n' % (escape_text(self.type).encode('ascii'), indent))
+        file.write(b'"%b"\r\n%b{\r\n' % (escape_text(self.type).encode(encoding), indent))
         if not cull_uuid or self.uuid in roots:
             file.write(b'%b"id" "elementid" "%b"\r\n' % (indent_child, str(self.uuid).encode('ascii')))
         file.write(b'%b"name" "string" "%b"\r\n' % (indent_child, escape_text(self.name).encode(encoding)))
